@@ -199,3 +199,29 @@ Example C06_nonvacuous :
   check_bank_overlap [default_bank; mkBank 0 8 None (Some 16) (Some 0) false; mkBank 0 8 None (Some 16) (Some 15) false] = Err /\
   run [(0, 8); (8, 8); (4, 1)] = Err /\ run [(8, 8); (0, 8); (16, 1)] = Ok [(0, 8); (8, 8); (16, 1)].
 Proof. vm_compute. repeat split. Qed.
+
+(* ===== the same theorems for the larger fragment of Model/Resolver2.v: #bankdef / #bank with per-bank cursors and
+   checked position arithmetic, nested symbols declared and referenced by dot level and path ===== *)
+From Coq Require Import NArith ZArith List Bool.
+From CA Require Import Model.Lexer Model.Parser Model.BigIntOps Model.Matcher Model.Evaluator Model.Resolver
+  Model.Resolver2 Spec.Certificate2 Proofs.Resolver2FixP Proofs.Resolver2MonoP Proofs.Resolver2TopP Proofs.Resolver2CertP
+  Proofs.Certificate2P.
+From CA Require Model.Overlap Model.Cursor Model.Output Model.Symbols Spec.OverlapSpec Spec.LayoutInv Proofs.OutputP.
+Import ListNotations.
+Open Scope Z_scope.
+
+Theorem C06_resolver_output_layout : forall indexed defs ps budget r,
+  assemble2 indexed defs ps budget = Ok r ->
+  Forall OutputP.no_empty_emit (r_nodes r) ->
+  LayoutInv.layout_ok (r_banks r) (r_items r) (r_bits r) = true /\ LayoutInv.windows_ok (r_banks r) = true.
+Proof. exact Resolver2TopP.C02b_output_is_layout_ok. Qed.
+
+Theorem C06_resolver_output_layout_partial : forall indexed defs ps budget r,
+  assemble2 indexed defs ps budget = Ok r ->
+  forallb (LayoutInv.item_ok (r_banks r)) (r_items r) = true /\
+  OverlapSpec.pairwise_disjointb (LayoutInv.ranges (r_items r)) = true /\
+  LayoutInv.unwritten_zero (r_items r) (r_bits r) = true /\
+  N.of_nat (length (r_bits r)) = N.max (LayoutInv.fill_end (r_banks r)) (OutputP.written_end (r_items r)) /\
+  LayoutInv.content_ok (r_items r) (r_bits r) = true /\
+  LayoutInv.windows_ok (r_banks r) = true.
+Proof. exact C02b_output_layout_partial. Qed.
